@@ -394,9 +394,14 @@ func checkLoggerRegion(ctx *Ctx) {
 						if !ok {
 							continue
 						}
-						region := iff.Block().Succs[0]
+						rk := 0
 						if x.Op == token.EQL {
-							region = iff.Block().Succs[1]
+							rk = 1
+						}
+						region := iff.Block().Succs[rk]
+						if !edgeDominates(iff.Block(), rk, region) {
+							okPure = false
+							R.Fail("pure", "RunUntil:logging-region:entry", ctx.Prog.Pos(iff.Pos()), "the logging region can be entered without passing the Logger != nil test")
 						}
 						for _, rb := range fn.Blocks {
 							if !region.Dominates(rb) {
